@@ -63,7 +63,8 @@ class World:
                     d = Attribute('doc of %s in I%d' % (name, i))
                 own[name] = d
                 attrs[name] = d
-        tags = {t: ('v', i, t) for t in TAGS if rng.random() < 0.35}
+        # values include None / 0 / False: "found, and the value is falsy" must not be taken for "not found"
+        tags = {t: rng.choice([('v', i, t), ('v', i, t), None, 0, False, ()]) for t in TAGS if rng.random() < 0.35}
         invs = [Inv((i, j), rng.random() < 0.3, self.calls) for j in range(rng.choice([0, 0, 1, 2]))]
         try:
             I = InterfaceClass('I%d' % i, bases or (Interface,), attrs, __module__=self.mod)
@@ -154,11 +155,23 @@ class World:
                 ctx.count('tag_comparisons')
                 g1 = I.queryTaggedValue(t)
                 g2 = I.queryTaggedValue(t, _MISSING)
+                # a caller-supplied default that happens to be the nearest value must not hide that value
+                for dflt in (None, 0, False, ()):
+                    gd = I.queryTaggedValue(t, dflt)
+                    ctx.ev()
+                    if hits:
+                        if gd is not exp and not (gd == exp and type(gd) is type(exp)):
+                            ctx.violation('tagged-value-default-collision', {'iface': I.__name__, 'tag': t, 'default': repr(dflt),
+                                                                             'got': repr(gd), 'expected': repr(exp), 'warm': warm_tag})
+                    elif gd is not dflt:
+                        ctx.violation('tagged-value-default-not-returned', {'iface': I.__name__, 'tag': t, 'default': repr(dflt)})
+                if hits and exp in (None, 0, False, ()) and len(hits) >= 2:
+                    ctx.count('falsy_nearest_tag_values')
                 try:
                     g3 = I.getTaggedValue(t)
                 except KeyError:
                     g3 = None
-                if g1 is not exp or (g2 is _MISSING) != (not hits) or g3 is not exp:
+                if g1 is not exp or (g2 is _MISSING) != (not hits) or (g3 is not exp and hits):
                     ctx.violation('tagged-value-mismatch', {'iface': I.__name__, 'tag': t, 'expected': exp,
                                                             'query': g1, 'get': g3, 'warm': warm_tag})
                 d = self.tags[id(I)].get(t)
